@@ -5,6 +5,7 @@ package gomatrixserverlib
 import (
 	"context"
 	"fmt"
+	"strings"
 	"time"
 
 	"pgregory.net/rapid"
@@ -25,6 +26,29 @@ type c04Case struct {
 	Tampers []c04Tamper `json:"tampers"`
 	// GenuineFirst: the untampered event goes through the untrusted parser before the tampered copy
 	GenuineFirst bool `json:"genuine_first,omitempty"`
+	// Respell != 0: the event is sent in another JSON spelling of the same value (escapes in keys and
+	// strings, white space, key order); what the receiver makes of it must not depend on the spelling
+	Respell uint64 `json:"respell,omitempty"`
+	// EscapeKey / EscapeMode: every occurrence of this member name on the wire is written with \uXXXX
+	// escapes (first | last | all | upper); the name denotes the same key
+	EscapeKey  string `json:"escape_key,omitempty"`
+	EscapeMode string `json:"escape_mode,omitempty"`
+}
+
+func c04EscapeName(name, mode string) string {
+	var sb strings.Builder
+	for i, r := range name {
+		esc := mode == "all" || mode == "upper" || (mode == "first" && i == 0) || (mode == "last" && i == len(name)-1)
+		switch {
+		case esc && mode == "upper":
+			fmt.Fprintf(&sb, "\\u%04X", r)
+		case esc:
+			fmt.Fprintf(&sb, "\\u%04x", r)
+		default:
+			sb.WriteRune(r)
+		}
+	}
+	return sb.String()
 }
 
 var c04Stripped = []string{"outlier", "destinations", "age_ts", "unsigned"}
@@ -87,6 +111,14 @@ func c04Check(ctx *vfCtx, c c04Case) {
 		ctx.Class("tamper/none")
 	}
 	wire := []byte(jplain(sent))
+	if c.Respell != 0 {
+		wire = []byte(jspellSeed(c.Respell, sent))
+		ctx.Class("wire/respelt")
+	}
+	if c.EscapeKey != "" {
+		wire = []byte(strings.ReplaceAll(string(wire), `"`+c.EscapeKey+`":`, `"`+c04EscapeName(c.EscapeKey, c.EscapeMode)+`":`))
+		ctx.Class("wire/escaped-key/" + c.EscapeMode)
+	}
 	received := sent.without(c04StrippedKeys(c.Version)...)
 	sentHash := ""
 	if h, ok := received.get("hashes"); ok && h.K == 'o' {
@@ -230,6 +262,9 @@ func c04Gen(t *rapid.T) c04Case {
 		p.StateKey = nil
 	}
 	c := c04Case{Version: version, Origin: p.Origin, GenuineFirst: rapid.Bool().Draw(t, "genuineFirst")}
+	if rapid.IntRange(0, 2).Draw(t, "respelt") == 0 {
+		c.Respell = rapid.Uint64Min(1).Draw(t, "respell")
+	}
 	c.Event = c05Wire(p, jv{K: 'o'}, p.Origin, "")
 	o := jgenOpts{MaxDepth: 2, MaxWidth: 3, IntsOnly: true}
 	n := rapid.SampledFrom([]int{0, 1, 1, 1, 2}).Draw(t, "ntamper")
@@ -287,7 +322,55 @@ func c04Gen(t *rapid.T) c04Case {
 	return c
 }
 
+// c04EnumEscapedKeys: a genuine event with one top-level key added - a key that is stripped on receipt,
+// an envelope field, or an unknown key - whose name is written with escapes on the wire.
+func c04EnumEscapedKeys(size, shard, nshards int, emit func(c04Case)) {
+	idx := 0
+	sk := ""
+	for _, v := range vfVersions {
+		for _, typ := range []string{"m.room.message", "m.room.topic"} {
+			p := evProto{Version: v, Type: typ, Sender: "@alice:a.example", RoomID: "!room:a.example", Content: vfBytes(`{"body":"hello","topic":"t"}`),
+				Prev: []string{"$p1:a.example"}, Auth: []string{"$a1:a.example"}, Depth: 7, TS: 1700000000000, Origin: "a.example", KeyID: "ed25519:1", Key: "origin:a.example"}
+			if typ == "m.room.topic" {
+				p.StateKey = &sk
+			}
+			if vtraits[v].Creators {
+				p.RoomID = "!" + strings.Repeat("A", 43)
+			}
+			if vtraits[v].IDFormat != 1 {
+				p.Prev, p.Auth = []string{"$" + strings.Repeat("B", 43)}, []string{"$" + strings.Repeat("C", 43)}
+			}
+			ev := c05Wire(p, jv{K: 'o'}, p.Origin, "")
+			for _, key := range []string{"unsigned", "age_ts", "outlier", "destinations", "event_id", "zz_unknown", "origin", "redacts", "prev_state"} {
+				val := vfBytes(`{"age":1,"prev_content":{"body":"old"}}`)
+				switch key {
+				case "age_ts":
+					val = vfBytes(`1700000000123`)
+				case "outlier":
+					val = vfBytes(`true`)
+				case "destinations":
+					val = vfBytes(`["evil.example"]`)
+				case "event_id", "redacts":
+					val = vfBytes(`"$evil:evil.example"`)
+				case "origin":
+					val = vfBytes(`"evil.example"`)
+				}
+				for _, mode := range []string{"", "first", "last", "all", "upper"} {
+					for _, gf := range []bool{false, true} {
+						if idx%nshards == shard {
+							emit(c04Case{Version: v, Event: ev, Origin: p.Origin, Tampers: []c04Tamper{{Kind: "top_set", Key: key, Value: val}}, GenuineFirst: gf, EscapeKey: key, EscapeMode: mode})
+						}
+						idx++
+					}
+				}
+			}
+		}
+	}
+}
+
 func init() {
+	vfEnum("C04/escaped-key-names", "non-trivial = every case: a genuine event with one added top-level key (stripped on receipt, an envelope field outside the keep-list, or unknown) whose NAME is written plainly or with \\uXXXX escapes (first / last / every character, upper-case hex) on the wire. distinct = distinct Case JSON",
+		1, 1, 4, c04EnumEscapedKeys, c04Check)
 	vfRapid("C04/content-hash",
 		"non-trivial = a tampering was applied that changed the hashed bytes, the hash itself, or a key stripped on receipt; distinct = distinct Case JSON",
 		1500, 160000, 16, c04Gen, c04Check)
